@@ -1218,6 +1218,22 @@ Proof. destruct k; simpl; auto. Qed.
 Lemma expected_len cfg : length (expected cfg) = length all_kinds.
 Proof. reflexivity. Qed.
 
+(* producers - including sends on full queues, which are no-ops (blocked) - never run a
+   handler and never move a consumer: while the consumer is inside a handler, whatever is
+   produced, it stays the only thing running *)
+Lemma producers_never_run prods : forall x,
+  pcs (irun x (map AProd prods)) = pcs x.
+Proof.
+  induction prods as [|o r IH]; intro x; simpl; [reflexivity|]. rewrite IH. reflexivity.
+Qed.
+
+Lemma full_send_blocks s c v : snd (step s (OSend c v)) = EFull -> fst (step s (OSend c v)) = s.
+Proof.
+  simpl. destruct (valid_user_chan s c); [|discriminate].
+  destruct (znth (chans s) c) as [ch|]; [|discriminate].
+  destruct (cclosed ch); [discriminate|]. destruct (ccap ch <=? zlen (cq ch)); [reflexivity | discriminate].
+Qed.
+
 Lemma run_is_trace ops :
   events ops = map snd (trace ops) /\ final ops = final_from init ops /\
   length (run ops) = length ops.
